@@ -64,7 +64,13 @@ func TestC01Gate(t *testing.T) {
 			}
 			gen.Sign(e, gen.Keys[rapid.IntRange(0, gen.NKeys-1).Draw(t, lab+"key")])
 			x := gen.CloneEvent(e)
-			how := rapid.SampledFrom([]string{"genuine", "genuine", "genuine", "content", "created_at", "kind", "tag", "pubkey", "id-digit", "sig-digit", "pubkey-off-curve", "sig-r-out-of-range"}).Draw(t, lab+"how")
+			how := rapid.SampledFrom([]string{"genuine", "genuine", "genuine", "content", "created_at", "kind", "tag", "pubkey", "id-digit", "sig-digit", "pubkey-off-curve", "sig-r-out-of-range", "utf8-substitution"}).Draw(t, lab+"how")
+			if how == "utf8-substitution" {
+				// signed over U+FFFD; the wire text carries an invalid byte in its place
+				e.Content += "\ufffd"
+				gen.Sign(e, gen.Keys[0])
+				x = gen.CloneEvent(e)
+			}
 			switch how {
 			case "content":
 				x.Content += "!"
@@ -93,6 +99,9 @@ func TestC01Gate(t *testing.T) {
 			}
 			doc := gen.JArr{gen.JStr("EVENT"), gen.WireEventDoc(t, x, lab+"doc.")}
 			text := gen.Render(doc, &gen.RenderOpts{T: t, EscapeVar: rapid.IntRange(0, 3).Draw(t, lab+"esc") == 0})
+			if how == "utf8-substitution" {
+				text = strings.Replace(gen.Render(doc, nil), "\xef\xbf\xbd", "\xff", 1)
+			}
 			texts = append(texts, text)
 			kinds = append(kinds, how)
 			if how == "genuine" {
